@@ -21,7 +21,7 @@ from .. import core
 CLAUSES = ["TypeOK", "C13_WellFormed", "C13_InsideBox", "C13_MembershipPredicates", "C13_SphereIsDistanceLeqR",
            "C13_CylinderIsDiscTimesSlab", "C13_EllipsoidIsNormalisedSumLeq1", "C13_SphereShellIsOuterMinusInner",
            "C13_EllipsoidShellIsOuterMinusInner", "C13_SolidsCentredAndNested", "C13_NameBuildsSameShape",
-           "C13_AlgebraIsVoxelwiseLogic", "C13_AlgebraLaws"]
+           "C13_AlgebraIsVoxelwiseLogic", "C13_InputsUntouched", "C13_AlgebraLaws"]
 CHEAP = ["TypeOK", "C13_WellFormed", "C13_InsideBox"]
 SHAPE_CLAUSE = {"sphere": "C13_SphereIsDistanceLeqR", "cyl": "C13_CylinderIsDiscTimesSlab",
                 "ell": "C13_EllipsoidIsNormalisedSumLeq1", "sshell": "C13_SphereShellIsOuterMinusInner",
@@ -210,6 +210,11 @@ def materialise(ctx, sets, n, dts, tag):
     return items
 
 
+def container_changed(lst, items):
+    """The caller's list object: same length, the very same element objects in the same order."""
+    return len(lst) != len(items) or any(a is not b for a, b in zip(lst, items))
+
+
 def snapshot(items):
     out = []
     for it in items:
@@ -234,9 +239,14 @@ def replay_algebra(ctx, rec, variant):
     items = materialise(ctx, rec["masks"], n, dts, "%d_%d" % (os.getpid(), variant % 7))
     before = snapshot(items)
     ctx.ran(case)
+    lst = list(items)
     for fname, key in OPS:
         sig = {"op": fname, "first_dtype": dtype_class(dts[0]), "nmasks": k if k < 3 else "3+"}
-        res, err = core.call_guarded(getattr(cryomask, fname), list(items))
+        res, err = core.call_guarded(getattr(cryomask, fname), lst)       # ONE list object, reused for every operation
+        if container_changed(lst, items):
+            ctx.fail("C13_InputsUntouched", "%s(%s) changed the caller's list (%d entries before, %d after)" % (
+                fname, dts, len(items), len(lst)), case, sig)
+            lst[:] = items
         if err is not None:
             ctx.fail("call_raises", "%s(%s): %s" % (fname, dts, err), case, sig)
             continue
@@ -254,7 +264,10 @@ def replay_algebra(ctx, rec, variant):
             continue
         if key == "diff" and not rec["diffdef"]:
             # XOR is stated for two masks only; range and immutability were checked, independence of calls still holds
-            alias_check(ctx, lambda: getattr(cryomask, fname)(list(items)), res, case, sig, fname)
+            alias_check(ctx, lambda: getattr(cryomask, fname)(lst), res, case, sig, fname)
+            if container_changed(lst, items):
+                ctx.fail("C13_InputsUntouched", "%s(%s) changed the caller's list on a repeated call" % (fname, dts), case, sig)
+                lst[:] = items
             continue
         if not bool(np.all((flat == 0) | (flat == 1))):
             ctx.fail("C13_AlgebraIsVoxelwiseLogic", "%s(%s) of binary masks is not binary" % (fname, dts), case, sig)
@@ -265,7 +278,10 @@ def replay_algebra(ctx, rec, variant):
             ctx.fail("C13_AlgebraIsVoxelwiseLogic", "%s(%s): %d voxel(s) differ from the voxel-wise %s" % (
                 fname, dts, len(bad), {"union": "OR", "inter": "AND", "sub": "AND-NOT", "diff": "XOR"}[key]), case, sig)
             continue
-        alias_check(ctx, lambda: getattr(cryomask, fname)(list(items)), res, case, sig, fname)
+        alias_check(ctx, lambda: getattr(cryomask, fname)(lst), res, case, sig, fname)
+        if container_changed(lst, items):
+            ctx.fail("C13_InputsUntouched", "%s(%s) changed the caller's list on a repeated call" % (fname, dts), case, sig)
+            lst[:] = items
         if snapshot(items) != before:
             ctx.fail("C13_InputsUntouched", "%s(%s) modified one of its inputs on a repeated call" % (fname, dts), case, sig)
             items = materialise(ctx, rec["masks"], n, dts, "%d_%d" % (os.getpid(), variant % 7))
@@ -418,13 +434,15 @@ def make_traces(ctx, cases):
             items = [np.array(m["data"], dtype=m["dtype"]).reshape(case["n"]) for m in case["masks"]]
             before = snapshot(items)
             sig = {"op": case["op"], "first_dtype": dtype_class(case["masks"][0]["dtype"]), "soft": True}
-            res, err = core.call_guarded(getattr(cryomask, case["op"]), list(items))
+            lst = list(items)
+            res, err = core.call_guarded(getattr(cryomask, case["op"]), lst)
+            listmut = container_changed(lst, items)
             if err is not None:
                 ctx.fail("call_raises", err, case, sig)
                 traces.append(None)
                 continue
             rf = np.asarray(res, dtype=float)
-            traces.append({"kind": "softalg", "op": case["op"], "mutated": snapshot(items) != before,
+            traces.append({"kind": "softalg", "op": case["op"], "mutated": snapshot(items) != before or listmut,
                            "vmin": scaled(np.min(rf)), "vmax": scaled(np.max(rf))})
     return traces
 
@@ -489,6 +507,11 @@ def gen_l3_cases(ctx, rng, n_hard, n_soft, n_alg, cap, nbig, soft_rounds=1):
         else:
             q = rand_request(rng, 6, 48, cap=cap)
         cases.append({"kind": "hard", "req": q, "variant": rng.randrange(64)})
+    # lattice points lying exactly on the sphere (Pythagorean quadruples: r = 13, 17, 15, 23, 25 ...), off the axes
+    for r in ([13, 17] if soft_rounds == 1 else [13, 15, 17, 23, 25, 9, 21]):
+        n = [rng.randint(2 * r + 1, 2 * r + 6) if 2 * r + 6 <= 48 else 48 for _ in range(3)]
+        cases.append({"kind": "hard", "req": {"shape": "sphere", "n": n, "c": [x // 2 for x in n], "dc": False, "r": r},
+                      "variant": rng.randrange(64)})
     # soft edges, blurred outwards: every shape that has the flag x every width (cylinders with odd and even heights),
     # core inside the box
     for rnd in range(soft_rounds):
